@@ -83,8 +83,8 @@ type cqObj struct {
 
 // cqRun executes "#cq <mem|dev> <seed> <objects> <victim> <mode>": objects of pseudo-random sizes are uploaded, object
 // <victim> gets one byte flipped on the medium and is read in the given way (s ToByteSlice, r ToReader, a ReadAt).
-func cqRun(t *testing.T, name string, script []string) []hx.Finding {
-	var found []hx.Finding
+func cqRun(t *testing.T, name string, script []string) (found []hx.Finding) {
+	detected := false
 	oracle := func(what, detail string) {
 		for _, f := range found {
 			if f.What == what {
@@ -93,6 +93,15 @@ func cqRun(t *testing.T, name string, script []string) []hx.Finding {
 		}
 		found = append(found, hx.Finding{Kind: "oracle", What: what, Detail: "C08: " + detail, Case: name, Script: script})
 	}
+	defer func() {
+		if p := recover(); p != nil {
+			if detected {
+				oracle("the store stopped accepting uploads after a corruption was detected", fmt.Sprintf("%s: a storage operation panicked: %v", script[0], p))
+			} else {
+				oracle("a configured store panicked", fmt.Sprintf("%s: %v", script[0], p))
+			}
+		}
+	}()
 	w := strings.Fields(script[0])
 	if len(w) != 6 {
 		return nil
@@ -180,6 +189,7 @@ func cqRun(t *testing.T, name string, script []string) []hx.Finding {
 		oracle("a read of corrupted data did not fail with INTERNAL", fmt.Sprintf("%s: Get of object %d -> %v", script[0], victim, err))
 		return found
 	}
+	detected = true
 	check := func(when string) {
 		set := digest.NewSetBuilder(0)
 		for _, o := range objs {
